@@ -79,6 +79,9 @@ func genC04(rng *rand.Rand, n int, emit func(Case), dist map[string]int) {
 				d.kind, d.code = 2, []int{401, 403, 500}[rng.Intn(3)]
 			case r < 6 && allowRewrite:
 				d.kind, d.arg = 1, []string{"/api/a", "/g/x", "/a", "/api/v1/a", "/missing", "/admin"}[rng.Intn(6)]
+			case r < 9 && allowRewrite:
+				// a Pre middleware that canonicalises the Host: the router of the REWRITTEN host serves the request
+				d.kind, d.arg = 3, []string{"api.example.com", "admin.example.com", "other.example.com", ""}[rng.Intn(4)]
 			}
 			id := d.id
 			f := func(next echo.HandlerFunc) echo.HandlerFunc {
@@ -91,6 +94,9 @@ func genC04(rng *rand.Rand, n int, emit func(Case), dist map[string]int) {
 					if d.kind == 1 {
 						c.Request().URL.Path = d.arg
 						c.Request().URL.RawPath = ""
+					}
+					if d.kind == 3 {
+						c.Request().Host = d.arg
 					}
 					err := next(c)
 					trace = append(trace, L(I(1), I(id), I(codeOf(err))))
@@ -477,6 +483,8 @@ func genC04(rng *rand.Rand, n int, emit func(Case), dist map[string]int) {
 			}
 			// a group's own middleware never runs outside its prefix / host
 			effPath := req.URL.Path
+			origHost := host
+			host = req.Host // (what the Pre middlewares left behind)
 			if ok {
 				for _, g := range groups {
 					under := (effPath == g.prefix || strings.HasPrefix(effPath, g.prefix+"/") || g.prefix == "") && (g.host == "" || g.host == host)
@@ -539,9 +547,9 @@ func genC04(rng *rand.Rand, n int, emit func(Case), dist map[string]int) {
 					}
 				}
 			}
-			in := L(L(ops...), L(S(host), S(method), S(path)))
+			in := L(L(ops...), L(S(origHost), S(method), S(path)))
 			cs := Case{In: in, Out: L(L(trace...), I(finalErr)), Ok: ok, Why: why,
-				Human: fmt.Sprintf("%d registration ops, %d groups; Host=%q %s %s (routed as %q) -> trace %s status %d", len(ops), len(groups), host, method, path, effPath, Show(L(trace...)), rec.Code)}
+				Human: fmt.Sprintf("%d registration ops, %d groups; Host=%q %s %s (routed as Host %q path %q) -> trace %s status %d", len(ops), len(groups), origHost, method, path, host, effPath, Show(L(trace...)), rec.Code)}
 			grp := false
 			for _, g := range groups {
 				for _, id := range g.own {
